@@ -468,7 +468,7 @@ func checkC20(r *Result) {
 						}
 					}
 				case *ssa.Call:
-					if CalleeName(x.Common()) == "sort.Slice" {
+					if medianSortKind(CalleeName(x.Common())) != "" {
 						bad := ps.Require(in, func(v map[string]bool) bool { return v["copied"] })
 						arg := tm.Of(x.Call.Args[0])
 						r.check(len(bad) == 0 && strings.HasPrefix(arg.Op, "makeslice:"), "MEDIAN-SHAPE", "lib.Median # sorts a copy, not the caller's slice", P.Pos(in.Pos()), "sorted value: "+arg.Brief())
@@ -681,7 +681,7 @@ func checkMedianArithmetic(r *Result, med *ssa.Function, tm *termer) {
 	})
 	// valuations that no pair of numbers has are not paths of the program
 	feasible := func(v map[string]bool) bool { return !(v["hiPos"] && !v["hiNonNeg"]) }
-	copies, success := 0, 0
+	copies, success, sorts := 0, 0, 0
 	for _, b := range med.Blocks {
 		for _, in := range b.Instrs {
 			switch x := in.(type) {
@@ -692,24 +692,94 @@ func checkMedianArithmetic(r *Result, med *ssa.Function, tm *termer) {
 					r.check(isCopy(dst) && src.V == ssa.Value(med.Params[0]) && len(dst.Args) == 1 && isLen(dst.Args[0]), rule,
 						"lib.Median # the fresh slice of the input's length is filled from the input", P.Pos(x.Pos()), "copy("+dst.Brief()+", "+src.Brief()+")")
 				}
-				if CalleeName(x.Common()) == "sort.Slice" && len(x.Call.Args) == 2 {
+				if kind := medianSortKind(CalleeName(x.Common())); kind != "" {
+					sorts++
 					ok, got := false, "comparator is not a closure of lib.Median"
-					if mc, isMC := x.Call.Args[1].(*ssa.MakeClosure); isMC {
-						if cl, isFn := mc.Fn.(*ssa.Function); isFn && len(cl.Params) == 2 {
-							ctm := NewTermer()
-							n := 0
-							for _, cb := range cl.Blocks {
-								for _, cin := range cb.Instrs {
-									if ret, isRet := cin.(*ssa.Return); isRet && len(ret.Results) == 1 {
-										n++
-										t := ctm.Of(ret.Results[0])
-										got = t.String()
-										elem := func(e *Term, p *ssa.Parameter) bool {
-											return e.Op == "index" && len(e.Args) == 2 && e.Args[1].V == ssa.Value(p) && (isCopy(e.Args[0]) || e.Args[0].Contains("free:"))
-										}
-										ok = n == 1 && (t.Op == "<" || t.Op == "<=") && len(t.Args) == 2 && elem(t.Args[0], cl.Params[0]) && elem(t.Args[1], cl.Params[1])
-									}
+					var cl *ssa.Function
+					if len(x.Call.Args) == 2 {
+						switch c := x.Call.Args[1].(type) {
+						case *ssa.MakeClosure:
+							cl, _ = c.Fn.(*ssa.Function)
+						case *ssa.Function:
+							cl = c
+						}
+					}
+					switch {
+					case kind == "natural":
+						ok, got = len(x.Call.Args) == 1, "natural order"
+					case kind == "less" && cl != nil && len(cl.Params) == 2:
+						ctm := NewTermer()
+						n := 0
+						for _, ret := range allReturns(cl) {
+							if len(ret.Results) != 1 {
+								continue
+							}
+							n++
+							t := ctm.Of(ret.Results[0])
+							got = t.String()
+							elem := func(e *Term, p *ssa.Parameter) bool {
+								return e.Op == "index" && len(e.Args) == 2 && e.Args[1].V == ssa.Value(p) && (isCopy(e.Args[0]) || e.Args[0].Contains("free:"))
+							}
+							ok = n == 1 && (t.Op == "<" || t.Op == "<=") && len(t.Args) == 2 && elem(t.Args[0], cl.Params[0]) && elem(t.Args[1], cl.Params[1])
+						}
+					case kind == "threeway" && cl != nil && strings.HasPrefix(fnCanon(cl), "cmp.Compare"):
+						ok, got = true, "cmp.Compare"
+					case kind == "threeway" && cl != nil && len(cl.Params) == 2:
+						// every return is cmp.Compare(a, b), or a constant whose sign the path's comparisons of a and b justify;
+						// a value computed from the elements (a - b) has the right sign only while the difference fits
+						ctm := NewTermer()
+						a, b := ssa.Value(cl.Params[0]), ssa.Value(cl.Params[1])
+						is := func(t *Term, v ssa.Value) bool { return t.V == v }
+						cps := AnalyzePaths(cl, []Atom{
+							{Name: "lt", Stable: true, Cond: func(rel *Term) (bool, bool) {
+								if len(rel.Args) == 2 && rel.Op == "<" && is(rel.Args[0], a) && is(rel.Args[1], b) {
+									return true, true
 								}
+								if len(rel.Args) == 2 && rel.Op == "<=" && is(rel.Args[0], b) && is(rel.Args[1], a) {
+									return true, false
+								}
+								return false, false
+							}},
+							{Name: "gt", Stable: true, Cond: func(rel *Term) (bool, bool) {
+								if len(rel.Args) == 2 && rel.Op == "<" && is(rel.Args[0], b) && is(rel.Args[1], a) {
+									return true, true
+								}
+								if len(rel.Args) == 2 && rel.Op == "<=" && is(rel.Args[0], a) && is(rel.Args[1], b) {
+									return true, false
+								}
+								return false, false
+							}},
+							{Name: "eq", Stable: true, Cond: func(rel *Term) (bool, bool) {
+								if len(rel.Args) == 2 && rel.Op == "==" && ((is(rel.Args[0], a) && is(rel.Args[1], b)) || (is(rel.Args[0], b) && is(rel.Args[1], a))) {
+									return true, true
+								}
+								return false, false
+							}},
+						})
+						ok, got = true, ""
+						for _, ret := range allReturns(cl) {
+							if len(ret.Results) != 1 {
+								continue
+							}
+							t := ctm.Of(ret.Results[0])
+							var need func(v map[string]bool) bool
+							switch c, isConst := ret.Results[0].(*ssa.Const); {
+							case isConst && c.Value != nil && c.Int64() < 0:
+								need = func(v map[string]bool) bool { return v["lt"] }
+							case isConst && c.Value != nil && c.Int64() > 0:
+								need = func(v map[string]bool) bool { return v["gt"] || (!v["lt"] && !v["eq"]) }
+							case isConst && c.Value != nil:
+								need = func(v map[string]bool) bool { return v["eq"] || (!v["lt"] && !v["gt"]) }
+							case strings.HasPrefix(t.Op, "call:cmp.Compare") && len(t.Args) == 2 && is(t.Args[0], a) && is(t.Args[1], b):
+								continue
+							}
+							if need == nil {
+								ok, got = false, "returns "+clip(t.String(), 160)+": not cmp.Compare(a, b) and not a constant"
+								break
+							}
+							if bad := cps.Require(ret, need); len(bad) > 0 {
+								ok, got = false, fmt.Sprintf("returns %s under %v", t.Brief(), bad)
+								break
 							}
 						}
 					}
@@ -742,5 +812,19 @@ func checkMedianArithmetic(r *Result, med *ssa.Function, tm *termer) {
 			}
 		}
 	}
+	r.check(sorts == 1, rule, "lib.Median # the copy is put in ascending order by one recognised sort", P.Pos(med.Pos()), fmt.Sprintf("%d recognised sort calls (sort.Slice / SliceStable, slices.Sort / SortFunc / SortStableFunc)", sorts))
 	r.check(copies == 1 && success > 0, rule, "lib.Median # one copy, and value returns to decide", P.Pos(med.Pos()), fmt.Sprintf("%d copies, %d value returns", copies, success))
+}
+
+// medianSortKind classifies the sort routines lib.Median may use by the kind of ordering argument they take.
+func medianSortKind(callee string) string {
+	switch {
+	case callee == "sort.Slice" || callee == "sort.SliceStable":
+		return "less"
+	case callee == "slices.Sort" || strings.HasPrefix(callee, "slices.Sort["):
+		return "natural"
+	case callee == "slices.SortFunc" || callee == "slices.SortStableFunc" || strings.HasPrefix(callee, "slices.SortFunc[") || strings.HasPrefix(callee, "slices.SortStableFunc["):
+		return "threeway"
+	}
+	return ""
 }
